@@ -172,13 +172,13 @@ impl Prop for C01 {
         "C01"
     }
     fn rule(&self) -> String {
-        "every fully parenthesised expression tree over the literal ladder (22 small literals incl. each percent literal's plain twin (`50%` and `50`, `10%` and `10`),  negative, fractional, exponent (also with an exponent smaller than the number of decimals) and percent forms; 5 big ones: 40/300-digit integers, 30-digit fraction, 1e40, 1e-40) x {+ - * / ^}: all pairs over the full ladder, all 3-leaf trees over 19 literals, all 4-leaf trees over 6 literals (thorough: 5-leaf over 4 literals); exponent operands limited to integers |n|<=6. Non-trivial = the reference evaluator defines a value or prescribes an error AND the tree contains >=1 operator; distinct = distinct rendered strings".into()
+        "every fully parenthesised expression tree over the literal ladder (22 small literals incl. each percent literal's plain twin (`50%` and `50`, `10%` and `10`),  negative, fractional, exponent (also with an exponent smaller than the number of decimals) and percent forms; 5 big ones: 40/300-digit integers, 30-digit fraction, 1e40, 1e-40) x {+ - * / ^}: all pairs over the full ladder, all 3-leaf trees over 19 literals, all 4-leaf trees over 6 literals (thorough: 5-leaf over 4 literals); exponent operands limited to integers |n|<=6; every operator sequence of length 1..4 (thorough 5) written without parentheses under three literal assignments, against the tree the documented precedence table prescribes. Non-trivial = the reference evaluator defines a value or prescribes an error AND the tree contains >=1 operator; distinct = distinct rendered strings".into()
     }
     fn assumptions(&self) -> Vec<String> {
         vec![
             "num::BigRational/BigInt arithmetic is exact (oracle base)".into(),
             "sizes between the ladder's rungs behave like the rungs (BigInt loops are size-uniform)".into(),
-            "blank layout and implicit precedence are C06's subject; here every grouping is explicit".into(),
+            "blank layout is C06's subject; implicit precedence is enumerated here in one layout only (single blanks, three literal assignments); every other layout by C06".into(),
         ]
     }
     fn generate(&self, tier: Tier, sink: &mut dyn FnMut(Case)) {
@@ -209,6 +209,20 @@ impl Prop for C01 {
         }
         let l6: Vec<String> = ["0", "2", "-3", "0.5", "1e2", "50%"].iter().map(|s| s.to_string()).collect();
         gen_trees("trees4", 4, &l6, sink);
+        // "every operator mix and nesting depth" also without parentheses: every operator sequence
+        // of length 1..4 (thorough 5) written flat, under three literal assignments; the value is
+        // that of the tree the documented precedence table prescribes
+        for lits in [["10", "2", "3", "2", "4", "5"], ["7", "3", "2", "2", "1", "2"], ["1", "50%", "-2", "2", "-3", "0.5"]] {
+            for k in 1..=tier.pick(4usize, 5usize) {
+                crate::props::c06::for_each_ops(k, &mut |ops| {
+                    let leaves: Vec<Expr> = lits.iter().take(k + 1).map(|l| num(l)).collect();
+                    let e = crate::props::c06::table_tree(&leaves, ops);
+                    if exponents_ok(&e) {
+                        sink(Case::with("flat", e.render(), crate::refcalc::to_json(&e)));
+                    }
+                });
+            }
+        }
         if tier == Tier::Thorough {
             let l4: Vec<String> = ["0", "2", "-0.5", "3"].iter().map(|s| s.to_string()).collect();
             gen_trees("trees5", 5, &l4, sink);
@@ -217,7 +231,7 @@ impl Prop for C01 {
         }
     }
     fn check(&self, env: &mut Env, case: &Case) -> Verdict {
-        let e = parse_canonical(&case.key);
+        let e = if case.fam == "flat" { crate::refcalc::from_json(&case.data) } else { parse_canonical(&case.key) };
         let nontrivial = e.leaves() >= 2;
         exprcheck::verdict(env.db(), &e, nontrivial)
     }
